@@ -179,6 +179,9 @@ func buildPaths(h *expr.HTTPExpr, bodies map[string]map[string]*EndpointBodies, 
 
 			for _, key := range f.RequestPaths {
 				operation := buildFileServerOperation(key, f, api)
+				// Remove the wildcard marker as done for endpoint paths: the path
+				// template variable must bear the name of the path parameter.
+				key = expr.HTTPWildcardRegex.ReplaceAllString(key, "/{$1}")
 				path, ok := paths[key]
 				if !ok {
 					path = new(PathItem)
@@ -371,6 +374,7 @@ func buildFileServerOperation(key string, fs *expr.HTTPFileServerExpr, api *expr
 					Description: "Relative file path",
 					In:          "path",
 					Required:    true,
+					Schema:      &openapi.Schema{Type: openapi.String},
 				},
 			}
 			params = []*ParameterRef{&pref}
